@@ -101,6 +101,27 @@ func c05(c *Ctx) {
 						okLen := isLenOf(info, call.Args[0], func(e ast.Expr) bool { return sameVar(info, e, p) })
 						c.Check(okLen, "R1", shortPkg(px.Pkg.PkgPath)+"|"+outer.Name+"|array length is len of the slice", px.at(s), "reflect.ArrayOf(len("+p.Name()+"), …)",
 							"the array is sized with "+exprStr(call.Args[0])+" instead of len("+p.Name()+"): the stored value gains or loses elements (e.g. a slice with spare capacity is padded with zero values and no longer equals the same elements supplied tightly)")
+						// … on every path: a constructor that answers some inputs (the empty slice) with another representation (nil)
+						// while a sibling constructor of the same attribute type keeps building the array gives one typed value two
+						// identities
+						badRet := ""
+						var badPos token.Pos
+						inspectNoLit(outer.Body(), func(n ast.Node) bool {
+							if rs, ok := n.(*ast.ReturnStmt); ok && len(rs.Results) == 1 {
+								if isNilIdent(info, rs.Results[0]) {
+									badRet, badPos = "returns nil", rs.Pos()
+								} else if tv, has := info.Types[rs.Results[0]]; has && tv.Value != nil {
+									badRet, badPos = "returns the constant "+exprStr(rs.Results[0]), rs.Pos()
+								}
+							}
+							return true
+						})
+						pos := px.at(s)
+						if badRet != "" {
+							pos = at(px.M, badPos)
+						}
+						c.Check(badRet == "", "R1", shortPkg(px.Pkg.PkgPath)+"|"+outer.Name+"|every input is stored as the array built here", pos, "no return of another representation",
+							outer.Name+" "+badRet+" for some inputs instead of the array: the same typed value (an empty slice) built through a sibling constructor has another identity — two Sets with the same contents are not Equal")
 					}
 				}
 			}
@@ -487,6 +508,9 @@ func c05(c *Ctx) {
 		}
 	}
 
+	c.Rule("R6", "E6 character set + E3 dominance", "default encoder: copyAndEscape escapes exactly '=', ',' and the escape character, and copies a string wholesale only under a guard that excludes all three (the encoding is injective)", 1)
+	ruleEncoderEscapes(c, ax, "R6")
+
 	c.Rule("R5", "E3/E2", "Set.Value: lower-bound search on Key ≥ k confirmed by ==; Equals compares Equivalent() of both sides; Equivalent maps nil/invalid to the empty set's identity", 3)
 	if fn := c.Fn(ax, "R5", "(*Set).Value"); fn != nil {
 		geq, eq := false, false
@@ -712,6 +736,84 @@ func c05(c *Ctx) {
 		}
 		c.Check(good, "R5", "attribute|emptySet|identity of the empty set = computeDistinct of an empty list ([0]KeyValue)", at(ax.M, ev.Pos()), "one identity for every empty set however it was produced",
 			why+": a set emptied by Filter / NewSetWithFiltered (identity [0]KeyValue{} from computeDistinct) is no longer Equal to EmptySet(), NewSet() or the zero Set")
+	}
+}
+
+// ruleEncoderEscapes: "encoding agrees with the contents" — the default encoder is injective because copyAndEscape puts the escape
+// character in front of every '=', ',' and escape character. The per-rune switch lists exactly those three, and a path that
+// copies the string wholesale is guarded by a test that excludes all three.
+func ruleEncoderEscapes(c *Ctx, ax *PkgIndex, rule string) {
+	info := ax.Pkg.TypesInfo
+	fn := c.Fn(ax, rule, "copyAndEscape")
+	if fn == nil {
+		return
+	}
+	sig := fn.Obj.Type().(*types.Signature)
+	val := sig.Params().At(sig.Params().Len() - 1)
+	escaped := map[int64]bool{}
+	inspectNoLit(fn.Body(), func(n ast.Node) bool {
+		if cc, ok := n.(*ast.CaseClause); ok {
+			for _, e := range cc.List {
+				if v, isC := constInt(info, e); isC {
+					escaped[v] = true
+				}
+			}
+		}
+		return true
+	})
+	want := map[int64]bool{'=': true, ',': true, '\\': true}
+	same := len(escaped) == len(want)
+	for k := range want {
+		if !escaped[k] {
+			same = false
+		}
+	}
+	c.Check(same, rule, "attribute|copyAndEscape|escapes exactly '=', ',' and the escape character", at(ax.M, fn.Pos()), "three cases", "the set of escaped characters changed: two different attribute lists can encode to the same string")
+	// wholesale copies
+	g := ax.FG(fn)
+	for _, x := range g.Nodes {
+		if x.N == nil || g.InCycle(x) {
+			continue
+		}
+		var whole *ast.CallExpr
+		inspectNoLit(x.N, func(n ast.Node) bool {
+			if call, ok := n.(*ast.CallExpr); ok {
+				for _, a := range call.Args {
+					if sameVar(info, a, val) {
+						if _, m := methodCall(info, call); m != nil && (m.Name() == "WriteString" || m.Name() == "Write") {
+							whole = call
+						}
+					}
+				}
+			}
+			return true
+		})
+		if whole == nil {
+			continue
+		}
+		ok, _ := g.DominatedByEdges(x, func(e *GEdge) bool {
+			return edgeImplies(e, func(cnd ast.Expr, pol int) bool {
+				call, isCall := cnd.(*ast.CallExpr)
+				if !isCall || pol > 0 || len(call.Args) != 2 || !sameVar(info, call.Args[0], val) {
+					return false
+				}
+				if !(isCallTo(info, call, "strings.ContainsAny") || isCallTo(info, call, "strings.IndexAny")) {
+					return false
+				}
+				set, isS := constString(info, call.Args[1])
+				if !isS {
+					return false
+				}
+				for k := range want {
+					if !strings.ContainsRune(set, rune(k)) {
+						return false
+					}
+				}
+				return true
+			})
+		})
+		c.Check(ok, rule, "attribute|copyAndEscape|a wholesale copy happens only when none of the three characters occurs", at(ax.M, whole.Pos()), "guard excludes '=', ',' and the escape character",
+			"the string is copied unescaped on a path whose guard does not exclude all of '=', ',' and '\\\\': a value ending in a backslash swallows the following separator and two different attribute lists encode alike")
 	}
 }
 
